@@ -301,7 +301,19 @@ def models_read_input_only(ctx, run):
     nk = Obj(MOD + "naked.Naked", "naked", {"out_features": 1})
     fwd = prog.lookup_method(nk.cls, "forward")
     res = [r for r in interp.explore(fwd, [W.tensor("input")], {}, self_obj=nk) if not r["raises"]]
-    ok = bool(res) and all(isinstance(r["value"], Op) and r["value"].op == "new_zeros" for r in res)
+    def is_zeros(v):
+        """a tensor of zeros that takes nothing but shape / dtype / device from the input"""
+        while isinstance(v, Op) and v.op in ("expand", "expand_as", "view", "reshape", "unsqueeze", "squeeze", "contiguous", "clone", "to"):
+            v = v.args[0]
+        if not isinstance(v, Op):
+            return False
+        if v.op in ("new_zeros", "zeros_like", "zeros"):
+            return True
+        if v.op in ("new_full", "full", "full_like"):
+            fill = v.kwd().get("fill_value", v.args[-1] if v.args else None)
+            return isinstance(fill, (int, float)) and not isinstance(fill, bool) and fill == 0
+        return False
+    ok = bool(res) and all(is_zeros(r["value"]) for r in res)
     run.oblige("C02.R4", "Naked", ok, str([str(r["value"])[:60] for r in res]))
     if not ok:
         run.fail(Finding("C02.R4", fwd.qualname, str([str(r['value'])[:80] for r in res]), "Naked must return zeros shaped like its input", file=str(prog.modules[fwd.module].path), line=fwd.node.lineno))
